@@ -348,7 +348,7 @@ type gcmCase struct {
 
 func genGCM(t *rapid.T) gcmCase {
 	c := gcmCase{Plain: plainGen(t, 120), Secret: secretGen(t), AAD: g.BytesLen(rapid.IntRange(0, 40).Draw(t, "alen")).Draw(t, "aad"), Salt: g.BytesLen(8).Draw(t, "salt"),
-		StrForm: rapid.Bool().Draw(t, "str"), Corrupt: rapid.IntRange(0, 5).Draw(t, "corrupt"), N: rapid.IntRange(0, 1<<24).Draw(t, "n")}
+		StrForm: rapid.Bool().Draw(t, "str"), Corrupt: rapid.IntRange(0, 7).Draw(t, "corrupt"), N: rapid.IntRange(0, 1<<24).Draw(t, "n")}
 	if c.Corrupt == 5 {
 		c.Garbage = []byte(rapid.OneOf(rapid.StringMatching(`[0-9a-fA-F]{0,100}`), rapid.String(), rapid.StringMatching(`53616c7465645f5f[0-9a-f]{0,80}`)).Draw(t, "garbage"))
 	}
@@ -412,6 +412,14 @@ func runGCM(c gcmCase, r *pb.Rec) error {
 		msg = msg[:c.N%len(msg)]
 	case 5:
 		msg = c.Garbage
+	case 6:
+		// one character of the hex text replaced by an arbitrary byte value (the other case of the same digit is the
+		// same message; everything else is not)
+		msg[c.N%len(msg)] = byte(c.N >> 8)
+	case 7:
+		// an even-length prefix of valid hex followed by one character that is not a hex digit (odd length)
+		k := (c.N % (len(msg)/2 + 1)) * 2
+		msg = append(append([]byte(nil), msg[:k]...), []byte("zG/:@`\x00\xff \n")[(c.N>>8)%10])
 	}
 	var dec []byte
 	if c.StrForm {
@@ -484,7 +492,7 @@ func runGCM(c gcmCase, r *pb.Rec) error {
 			return fmt.Errorf("a result returned earlier by GCMEncrypt/GCMDecrypt changed after later calls: dec=%x dec2=%x want %x", dec, dec2, c.Plain)
 		}
 		r.Class("earlier results re-read after later calls")
-	case 5:
+	case 5, 6, 7:
 		// garbage: must agree with the reference decoder (error, or — astronomically unlikely — the same plaintext)
 		ok := false
 		if rw, e := hex.DecodeString(string(msg)); e == nil && len(rw) >= 32 && string(rw[:8]) == "Salted__" {
@@ -504,6 +512,8 @@ func runGCM(c gcmCase, r *pb.Rec) error {
 	r.ClassIf(c.Corrupt == 2, "secret differs")
 	r.ClassIf(c.Corrupt == 3, "aad differs")
 	r.ClassIf(c.Corrupt == 4, "truncated")
+	r.ClassIf(c.Corrupt == 6, "one hex character replaced by an arbitrary byte")
+	r.ClassIf(c.Corrupt == 7, "odd length ending in a non-hex character")
 	r.NonTrivialIf(c.Corrupt != 0)
 	return nil
 }
@@ -860,16 +870,16 @@ func FuzzDecrypt(f *testing.F) {
 }
 
 func init() {
-	pb.Register("cbc_roundtrip_format", pb.Options{Base: 4000, Required: []string{"block-aligned plaintext", "empty secret", "message kept across 1500 other derivations"},
+	pb.Register("cbc_roundtrip_format", pb.Options{Twins: 3, Base: 4000, Required: []string{"block-aligned plaintext", "empty secret", "message kept across 1500 other derivations"},
 		Rule: "plaintext 0..200 bytes, secret 0..140 bytes (biased to the MD5 block boundaries of the derivation input) (string and []byte forms), drawn salt; oracles: independent EVP_BytesToKey(MD5,1)+AES-256-CBC+PKCS#7 decoder recovers p from the library's output, exact ciphertext equality under the library's salt, Decrypt(Encrypt(p))=p, library decrypts an independently built message; non-trivial = non-empty plaintext"},
 		genCBC, runCBC)
 	pb.Register("cbc_garbage", pb.Options{Base: 8000, Required: []string{"garbage passes the header check", "truncated message", "accepted by both"},
 		Rule: "arbitrary text (base64/hex-looking/any), valid header + garbage body, every truncation length and single-character changes of valid messages, base64 of arbitrary raw bytes; oracle: Decrypt errors <=> the reference decoder rejects, equal plaintext otherwise, never a panic; non-trivial = non-empty input"},
 		genGarb, runGarb)
-	pb.Register("gcm_envelope", pb.Options{Base: 5000, Required: []string{"magic byte flipped", "salt byte flipped", "ciphertext byte flipped", "tag byte flipped", "secret differs", "aad differs", "truncated", "secret buffer mutated in place"},
+	pb.Register("gcm_envelope", pb.Options{Twins: 3, Base: 5000, Required: []string{"magic byte flipped", "salt byte flipped", "ciphertext byte flipped", "tag byte flipped", "secret differs", "aad differs", "truncated", "one hex character replaced by an arbitrary byte", "odd length ending in a non-hex character", "secret buffer mutated in place"},
 		Rule: "GCM round trip and interop with an independent builder; corruption applied at the decoded-byte level (bit flip in magic/salt/ciphertext/tag), different secret, different AAD, truncated hex text, garbage; oracle: decrypt fails for every difference; non-trivial = corruption case"},
 		genGCM, runGCM)
-	pb.Register("stream", pb.Options{Base: 5000, Required: []string{"plaintext larger than the copy buffer", "more than 32 KiB handed over in one Write/ReadFrom", "short header read", "EOF with data", "header arrives with EOF", "(0,nil) first read", "I/O fault during encryption", "I/O fault during decryption"},
+	pb.Register("stream", pb.Options{Twins: 3, Base: 5000, Required: []string{"plaintext larger than the copy buffer", "more than 32 KiB handed over in one Write/ReadFrom", "short header read", "EOF with data", "header arrives with EOF", "(0,nil) first read", "I/O fault during encryption", "I/O fault during decryption"},
 		Rule: "EncryptStreamTo/DecryptStreamTo through readers following drawn chunk plans (1-byte reads, 15/16/17-byte first chunk, (0,nil) reads, data+EOF together) or *bytes.Reader / *bytes.Buffer (io.WriterTo / io.ReaderFrom: everything in one call) and recording writers; injected I/O errors at a drawn byte on each of the four sides; oracles: header+AES-256-CTR reference, round trip equality, fault => error (never a panic), no fault => success; non-trivial = first read < 16 bytes or EOF delivered with data or fault"},
 		genStream, runStream)
 	pb.Register("stream_bad", pb.Options{Base: 3000, Required: []string{"truncated header"},
